@@ -2,10 +2,20 @@
 
 package grandpa
 
-import "github.com/ChainSafe/gossamer/dot/network"
+import (
+	"github.com/ChainSafe/gossamer/dot/network"
+	"github.com/ChainSafe/gossamer/pkg/scale"
+)
 
 // VerifDecodeMessage exposes the unexported gossip decoder (network.go decodeMessage)
 // to the external verification harness. Compiled only with -tags verif.
 func VerifDecodeMessage(cm *network.ConsensusMessage) (GrandpaMessage, error) {
 	return decodeMessage(cm)
+}
+
+// VerifNewGrandpaMessage returns a pointer to a new value of the unexported message union
+// decodeMessage decodes into, so the harness can decode several messages over ONE such value.
+func VerifNewGrandpaMessage() scale.VaryingDataType {
+	m := newGrandpaMessage()
+	return &m
 }
